@@ -1355,7 +1355,7 @@ LEVEL_TEXT = ("Proof (Engine J, all keys = all sampler outcomes, per enumerated 
               "inversion-parity solvability, Rubik cube = legal moves from the goal; Sudoku DatabaseGenerator returns a database puzzle unchanged (symbolic database).  Exhaustive native "
               "enumeration of finite generators: all 11 000 shipped Sudoku puzzles are conflict-free AND have a solution; toy/dummy/ASCII generators satisfy their advertised invariants "
               "(FlatPack toys by exact-cover search, BinPack toy by box arithmetic).  Existential 'not constant in the key': a native witness pair per random generator.")
-LEVEL_NOTE = ("Expected failures on the pinned tree (clauses kept as the property states them): Connector RandomWalkGenerator (DESIGN section 8 #11) in the symbolic single-step obligation and "
-              "on real keys; FlatPack RandomFlatPackGenerator produces block sets WITHOUT any complete placement (proved clause refuted with a confirmed replay; exact-cover search on real keys, "
-              "e.g. 2x2 PRNGKey(6)); LBF RandomGenerator(8, 20 agents, 3 food) spawns an agent on a food cell (PRNGKey(225)); MMST SplitRandomGenerator exceeds max_degree and has fewer distinct "
-              "edges than num_edges.  Bounded stand-ins are labelled and never counted as proved.")
+LEVEL_NOTE = ("Three generator defects found by these clauses were repaired in /repo (FlatPack crop, LBF food mask, Connector random-walk starts: known_findings.json 'fixed'); "
+              "known findings kept as the property states them: MMST SplitRandomGenerator exceeds max_degree and has fewer distinct edges than num_edges; Connector "
+              "RandomWalkGenerator(3, 4) (over-full board). The generator post-conditions that the environment contracts assume at reset are obligations here "
+              "(genpost:* tasks). Bounded stand-ins are labelled and never counted as proved.")
